@@ -354,7 +354,8 @@ func ruleSApply(c *Ctx) {
 						fname := fieldName(fa.X.Type(), fa.Field)
 						if fname == "PreviousTxSatoshis" || fname == "PreviousTxScript" {
 							n++
-							okSite := f.Name() == "apply" || (fname == "PreviousTxScript" && (f.Name() == "opcodeCheckSig" || f.Name() == "opcodeCheckMultiSig"))
+							okSite := f.Name() == "apply" || (fname == "PreviousTxScript" && (f.Name() == "opcodeCheckSig" || f.Name() == "opcodeCheckMultiSig") &&
+								strings.Contains(atomName(newTermEnv().Term(s.Addr)), ".Clone("))
 							c.Check(okSite, "S-apply", "spent-output-store/"+funcName(f)+"/"+fname, s.Pos(), "written in apply (real tx) or on the digest clone", funcName(f)+" writes "+fname+" of an input")
 						}
 					}
